@@ -78,8 +78,8 @@ func (*c15Prop) Plans(tier string) []Plan {
 	}
 }
 
-var c15SetOps = []string{"newset", "newset", "insert", "insert", "insert", "union", "union", "len", "each", "each-nested", "scribble"}
-var c15MapOps = []string{"newmap", "inc", "inc", "inc", "filter", "filter", "get", "keys", "mapeach", "mapeach-nested"}
+var c15SetOps = []string{"newset", "newset", "insert", "insert", "insert", "union", "union", "len", "each", "each-nested", "each-derive", "scribble"}
+var c15MapOps = []string{"newmap", "inc", "inc", "inc", "filter", "filter", "get", "keys", "mapeach", "mapeach-nested", "mapeach-derive", "keys-scribble"}
 
 func c15GenOp(r *Rand, hi int) c15Op {
 	var o c15Op
@@ -404,6 +404,79 @@ func (p *c15Pool) apply(o c15Op, probes map[string]int64) (class, detail string,
 		if want := modelSet(p.msets[sb]); len(outer) > 0 && !eqInts(inner, want) {
 			return "model:each", fmt.Sprintf("nested Each over %v visited %v", want, inner), false
 		}
+	case "each-derive":
+		// re-entrancy: the callback derives new values from the very set being iterated
+		var outer []int
+		var ins, uni data.IntSet
+		p.sets[sa].Each(func(v int) {
+			outer = append(outer, v)
+			if len(outer) == 1 {
+				ins = p.sets[sa].Insert(o.V)
+				uni = p.sets[sa].Union(p.sets[sb])
+			}
+		})
+		probes["derivations_inside_each"]++
+		if want := modelSet(p.msets[sa]); !eqInts(outer, want) {
+			return "model:each", fmt.Sprintf("Each over %v whose callback calls Insert(%d) and Union(%v) on the same value visited %v", want, o.V, modelSet(p.msets[sb]), outer), false
+		}
+		if len(outer) > 0 {
+			mi, mu := map[int]struct{}{o.V: {}}, map[int]struct{}{}
+			for k := range p.msets[sa] {
+				mi[k], mu[k] = struct{}{}, struct{}{}
+			}
+			for k := range p.msets[sb] {
+				mu[k] = struct{}{}
+			}
+			p.sets, p.msets = append(p.sets, ins, uni), append(p.msets, mi, mu)
+			if d := checkSet(ins, mi); d != "" {
+				return "model:insert", fmt.Sprintf("%v.Insert(%d) called inside Each: %s", modelSet(p.msets[sa]), o.V, d), true
+			}
+			if d := checkSet(uni, mu); d != "" {
+				return "model:union", fmt.Sprintf("%v.Union(%v) called inside Each: %s", modelSet(p.msets[sa]), modelSet(p.msets[sb]), d), true
+			}
+			return "", "", true
+		}
+	case "mapeach-derive":
+		visited := map[int]int{}
+		calls := 0
+		var inc, fil data.IntMap
+		p.maps[ma].Each(func(k, v int) {
+			visited[k] = v
+			calls++
+			if calls == 1 {
+				inc = p.maps[ma].Inc(o.V)
+				fil = p.maps[ma].Filter(p.sets[sb])
+			}
+		})
+		probes["derivations_inside_each"]++
+		if calls != len(p.mmaps[ma]) || fmt.Sprint(visited) != fmt.Sprint(p.mmaps[ma]) {
+			return "model:each", fmt.Sprintf("Each over %v whose callback calls Inc(%d) and Filter(%v) on the same value visited %v in %d calls", p.mmaps[ma], o.V, modelSet(p.msets[sb]), visited, calls), false
+		}
+		if calls > 0 {
+			mi, mf := map[int]int{}, map[int]int{}
+			for k, v := range p.mmaps[ma] {
+				mi[k] = v
+				if _, ok := p.msets[sb][k]; ok {
+					mf[k] = v
+				}
+			}
+			mi[o.V]++
+			p.maps, p.mmaps = append(p.maps, inc, fil), append(p.mmaps, mi, mf)
+			if d := checkMap(inc, mi); d != "" {
+				return "model:inc", fmt.Sprintf("%v.Inc(%d) called inside Each: %s", p.mmaps[ma], o.V, d), true
+			}
+			if d := checkMap(fil, mf); d != "" {
+				return "model:filter", fmt.Sprintf("%v.Filter(%v) called inside Each: %s", p.mmaps[ma], modelSet(p.msets[sb]), d), true
+			}
+			return "", "", true
+		}
+	case "keys-scribble":
+		// the caller owns the slice Keys() returned and may overwrite it
+		ks := p.maps[ma].Keys()
+		for i := range ks {
+			ks[i] = o.V
+		}
+		probes["caller_rewrote_keys_slice"]++
 	case "mapeach-nested":
 		mb := o.B % len(p.maps)
 		outer, inner := map[int]int{}, map[int]int{}
